@@ -98,7 +98,7 @@ pub fn check_batch(b: &KuBatch, probe: &Probe) -> Verdict {
 }
 
 const ALPHA: &[&str] = &["a", "a ", " a", "b", "", "  ", "A", "id:1 x", "id:1 y", "id:2 x", "zzz id:01", "a\u{a0}", "\u{3000}", "k 7", "j 7", "t \"</block>\""];
-const RES: &[Option<&str>] = &[None, Some(""), Some("id:(?P<value>[0-9]+)"), Some("id:[0-9]+"), Some("id:(?<value>[0-9]+)"), Some("[0-9]+$")];
+const RES: &[Option<&str>] = &[None, Some(""), Some("id:(?P<value>[0-9]+)"), Some("id:[0-9]+"), Some("id:(?<value>[0-9]+)"), Some("[0-9]+$"), Some("(k|j) (?P<value>[0-9]+)")];
 
 pub fn enumerated(max_len: usize, batch: usize) -> Vec<KuBatch> {
     let mut specs = vec![];
@@ -154,7 +154,7 @@ pub fn random_batch() -> BoxedStrategy<KuBatch> {
 }
 
 pub fn run(run: &mut Run) {
-    run.rule = "every rendered file spells `name=value` in one of three ways (`=`, ` = `, ` =`), drawn from its first block. enumerated: every line sequence of length 0..k (k=4 quick, 5 thorough) over a 16-line alphabet (repeated keys, a line whose string mentions an end tag, keys differing only in indentation/trailing blanks, keys differing only outside the regex group, blank and non-matching lines) x {bare attribute, empty value, group regex in both spellings, plain regex, a regex anchored at the line end}, the bare form also together with keep-sorted / keep-sorted=desc on the same block (both rules' diagnostics expected); random: blocks of 5..150 lines with and without duplicates, a quarter of them holding 1..3 nested blocks (whose tag comments are lines of the outer block). Non-trivial block = at least 2 keys and (a duplicate key, a skipped line, or a repeated line); distinct by (batch, block).".into();
+    run.rule = "every rendered file spells `name=value` in one of three ways (`=`, ` = `, ` =`), drawn from its first block. enumerated: every line sequence of length 0..k (k=4 quick, 5 thorough) over a 16-line alphabet (repeated keys, a line whose string mentions an end tag, keys differing only in indentation/trailing blanks, keys differing only outside the regex group, blank and non-matching lines) x {bare attribute, empty value, group regex in both spellings, plain regex, a regex anchored at the line end, a regex with an unnamed group in front of the `value` group}, the bare form also together with keep-sorted / keep-sorted=desc on the same block (both rules' diagnostics expected); random: blocks of 5..150 lines with and without duplicates, a quarter of them holding 1..3 nested blocks (whose tag comments are lines of the outer block). Non-trivial block = at least 2 keys and (a duplicate key, a skipped line, or a repeated line); distinct by (batch, block).".into();
     run.assumptions = vec![
         "content lines are shell/ruby words (block discovery itself is C03)".into(),
         "regexes come from a fixed family with hand-written extractors".into(),
